@@ -305,6 +305,35 @@ def replayCli (sent : List (Nat × Nat × Nat)) : State → List Ev → Nat → 
     | .ok s' => replayCli sent s' es (i + 1)
     | .error why => .error s!"{why} at-event {i} {e.kind},{e.pipe},{e.wid},{e.n}"
 
+/-- The hooks log an event AFTER the operation it names, and the goroutines share one log: a goroutine that is descheduled
+    between its operation and its log line is overtaken in the log by the goroutines that already saw the operation's
+    effect. The reader's `rwrite` (its own next step after `rsub`, blocked by nobody) is the event this was observed for
+    under load; moving it back to directly after the `rsub` of its pipe only restores an order that really happened. -/
+def pullReaderWrites (evs : List Ev) : List Ev :=
+  evs.foldl (fun acc e =>
+    if e.kind = "rwrite" then
+      let (afterRev, beforeRev) := acc.reverse.span (fun x => !(x.kind = "rsub" ∧ x.pipe = e.pipe))
+      match beforeRev with
+      | [] => acc ++ [e]
+      | _ => beforeRev.reverse ++ [e] ++ afterRev.reverse
+    else acc ++ [e]) []
+
+/-- …and a process that exits (the query is finished: LIMIT reached, everything cancelled) cuts the log lines other
+    goroutines had not written yet: a reader's `rwrite` that is missing altogether although the consumer logged the
+    processing of that batch is restored from the `cproc` event (which carries the batch's size). -/
+def fillMissingWrites : List Ev → List Ev
+  | [] => []
+  | e :: rest =>
+    if e.kind = "rsub" then
+      let seg := rest.takeWhile (fun x => !(x.kind = "rsub" ∧ x.pipe = e.pipe))
+      if seg.any (fun x => x.kind = "rwrite" ∧ x.pipe = e.pipe) then e :: fillMissingWrites rest
+      else match seg.find? (fun x => x.kind = "cproc" ∧ x.pipe = e.pipe) with
+        | some c => e :: ⟨"rwrite", e.pipe, 0, c.n⟩ :: fillMissingWrites rest
+        | none => e :: fillMissingWrites rest
+    else e :: fillMissingWrites rest
+
+def normaliseLog (evs : List Ev) : List Ev := fillMissingWrites (pullReaderWrites evs)
+
 def cliExpected (toks : List String) : String :=
   match toks with
   | "cli" :: _ :: _ :: _ :: _ :: x :: _ => "exit=" ++ (x.drop 1).toString
@@ -320,18 +349,23 @@ def judgeCli (toks : List String) (out : List String) : String :=
     | [ex] =>
       if ex ≠ cliExpected toks then "bad unexpected-exit-code expected " ++ cliExpected toks
       else match evToks.mapM parseEv, gmp.toNat? with
-        | some evs, some nw =>
-          let np := evs.foldl (fun acc e => max acc (e.pipe + 1)) 0
-          let s0 := State.init nw ((List.range np).map (inferPipe evs))
-          -- the select took the send branch: `wsent` was logged — or the process exited before the worker could log it,
-          -- but the consumer logged the receipt of that batch
-          let sent := evs.filterMap (fun e =>
-            if e.kind = "wsent" then some (e.wid, e.pipe, e.n)
-            else if e.kind = "wsel" ∧ !(evs.any (fun x => (x.kind = "wsent" ∨ x.kind = "wdrop") ∧ x.wid = e.wid ∧ x.pipe = e.pipe ∧ x.n = e.n))
-                    ∧ evs.any (fun x => x.kind = "crecv" ∧ x.pipe = e.pipe ∧ x.n = e.n) then some (e.wid, e.pipe, e.n)
-            else none)
-          match replayCli sent s0 evs 0 with
-          | .error why => "bad trace-is-not-a-path " ++ why
+        | some evs0, some nw =>
+          let tryReplay (evs : List Ev) : Except String State :=
+            let np := evs.foldl (fun acc e => max acc (e.pipe + 1)) 0
+            let s0 := State.init nw ((List.range np).map (inferPipe evs))
+            -- the select took the send branch: `wsent` was logged — or the process exited before the worker could log it,
+            -- but the consumer logged the receipt of that batch
+            let sent := evs.filterMap (fun e =>
+              if e.kind = "wsent" then some (e.wid, e.pipe, e.n)
+              else if e.kind = "wsel" ∧ !(evs.any (fun x => (x.kind = "wsent" ∨ x.kind = "wdrop") ∧ x.wid = e.wid ∧ x.pipe = e.pipe ∧ x.n = e.n))
+                      ∧ evs.any (fun x => x.kind = "crecv" ∧ x.pipe = e.pipe ∧ x.n = e.n) then some (e.wid, e.pipe, e.n)
+              else none)
+            replayCli sent s0 evs 0
+          match tryReplay evs0 with
+          | .error why =>
+            (match tryReplay (normaliseLog evs0) with
+             | .ok _ => "ok log-order-normalised"
+             | .error _ => "bad trace-is-not-a-path " ++ why)
           | .ok _ => "ok"
         | _, _ => "bad unparsable-trace"
     | _ => "bad unparsable-impl-output"
@@ -370,12 +404,16 @@ def judge (toks : List String) (out : List String) : String :=
       | none => "bad unparsable-trace"
       | some evs =>
         let sent := evs.filterMap (fun e => if e.kind = "wsent" then some (e.wid, e.pipe, e.n) else none)
-        match replay sent s0 evs 0 with
-        | .error why => "bad trace-is-not-a-path " ++ why
-        | .ok s =>
-          if !finalB s then "bad trace-ends-in-a-non-final-state"
-          else if summary s ≠ " ".intercalate summ then "bad summary-differs model=" ++ summary s
-          else "ok"
+        let verdict (r : Except String State) : String :=
+          match r with
+          | .error why => "bad trace-is-not-a-path " ++ why
+          | .ok s =>
+            if !finalB s then "bad trace-ends-in-a-non-final-state"
+            else if summary s ≠ " ".intercalate summ then "bad summary-differs model=" ++ summary s
+            else "ok"
+        let v := verdict (replay sent s0 evs 0)
+        if v == "ok" then v
+        else if verdict (replay sent s0 (pullReaderWrites evs) 0) == "ok" then "ok log-order-normalised" else v
   | _ => "ok"
 
 def model (toks : List String) : String :=
